@@ -1,6 +1,7 @@
 package main
 
 import (
+	"os/exec"
 	"regexp"
 	"go/token"
 	"encoding/json"
@@ -523,6 +524,14 @@ func (r *Report) finish() int {
 	if len(boundedEv) > 0 {
 		cov["bounded_checks"] = boundedEv
 	}
+	if r.Tier == "thorough" && exit == 0 && os.Getenv("VERIF_SELFTEST_CHILD") == "" {
+		st, stLines, ok := r.selfTest()
+		cov["selftest_seeded_changes"] = st
+		lines = append(lines, stLines...)
+		if !ok {
+			exit = 2
+		}
+	}
 	var kf []string
 	for k := range knownHit {
 		kf = append(kf, k)
@@ -818,4 +827,87 @@ func (eng *Engine) nonBlockingObligations(tag string) []*Obligation {
 		}
 	}
 	return out
+}
+
+// selfTest (thorough tier): the must-fail corpus. Every seeded change of this property that the committed record
+// (seeded/<id>/meta.json) says is detected is applied to a scratch copy of /repo's current working tree, the quick
+// check is run on the copy (replays skipped), and it must report a violation. A seed whose patch no longer applies
+// is skipped and listed. A recorded detection that is lost is BROKEN: the checker got weaker, not the code.
+func (r *Report) selfTest() ([]map[string]any, []string, bool) {
+	var out []map[string]any
+	var lines []string
+	ok := true
+	ents, _ := os.ReadDir(filepath.Join(r.Verif, "seeded"))
+	self, err := os.Executable()
+	if err != nil {
+		return nil, []string{"BROKEN: selftest: " + err.Error()}, false
+	}
+	for _, e := range ents {
+		if !e.IsDir() {
+			continue
+		}
+		dir := filepath.Join(r.Verif, "seeded", e.Name())
+		var meta struct {
+			Property   string `json:"property"`
+			Detected   *bool  `json:"detected"`
+			Detections []struct {
+				Check string `json:"check"`
+			} `json:"detections"`
+		}
+		b, err := os.ReadFile(filepath.Join(dir, "meta.json"))
+		if err != nil || json.Unmarshal(b, &meta) != nil || meta.Detected == nil || !*meta.Detected {
+			continue
+		}
+		mine := false
+		for _, d := range meta.Detections {
+			if d.Check == r.Prop {
+				mine = true
+			}
+		}
+		if !mine {
+			continue
+		}
+		scratch, err := os.MkdirTemp("/var/tmp", "verif-selftest-")
+		if err != nil {
+			return out, append(lines, "BROKEN: selftest: "+err.Error()), false
+		}
+		res := map[string]any{"seed": e.Name()}
+		func() {
+			defer os.RemoveAll(scratch)
+			repoCopy := filepath.Join(scratch, "repo")
+			verifCopy := filepath.Join(scratch, "verif")
+			if o, err := exec.Command("rsync", "-a", "--exclude", ".git", r.Repo+"/", repoCopy+"/").CombinedOutput(); err != nil {
+				res["result"] = "copy failed: " + string(o)
+				ok = false
+				return
+			}
+			exec.Command("rsync", "-a", "--exclude", ".git", "--exclude", "bin", "--exclude", "replays", "--exclude", "seeded", "--exclude", "evidence", r.Verif+"/", verifCopy+"/").Run()
+			p := exec.Command("patch", "-p1", "-s", "--no-backup-if-mismatch", "-i", filepath.Join(dir, "patch.diff"))
+			p.Dir = repoCopy
+			if o, err := p.CombinedOutput(); err != nil {
+				res["result"] = "skipped: the patch does not apply to the current tree"
+				_ = o
+				return
+			}
+			c := exec.Command(self, "check", "-prop", r.Prop, "-tier", "quick", "-repo", repoCopy, "-verif", verifCopy)
+			c.Env = append(os.Environ(), "VERIF_NO_REPLAY=1", "VERIF_SELFTEST_CHILD=1", "VERIF_TIER=quick")
+			o, _ := c.CombinedOutput()
+			if strings.Contains(string(o), "VIOLATION property="+r.Prop) {
+				res["result"] = "detected"
+				for _, l := range strings.Split(string(o), "\n") {
+					if strings.HasPrefix(l, "obligation ") {
+						res["obligation"] = strings.Fields(l)[1]
+						break
+					}
+				}
+			} else {
+				res["result"] = "NOT detected"
+				res["output"] = truncate(string(o), 1500)
+				ok = false
+				lines = append(lines, "BROKEN: selftest: the seeded change "+e.Name()+" (recorded as detected by "+r.Prop+") is no longer detected")
+			}
+		}()
+		out = append(out, res)
+	}
+	return out, lines, ok
 }
